@@ -86,7 +86,7 @@ CHECKS["C07"] = dict(
 CHECKS["C12"] = dict(
    category="proof",
    text="Lean theorems (QSP/Properties/C12.lean) prove for every reduced-phase list, parity and update history that the protocol state equals that of a freshly built protocol on the last reduced phases, that the full list is the palindrome layout (2k resp. 2k-1 entries, doubled centre), that respDef .Wx .z phi (-a) = (-1)^(len-1) respDef .Wx .z phi a (so Im<0|U|0> has the protocol's parity) and that U is a symmetric matrix for every layout. Each run compares the real SymmetricQSPProtocol with the model: layouts after random update histories (exact), gen_unitary / gen_response_* against the proven response enclosure, gen_jacobian against the product-rule specification computed by the model (proved to be the true derivative, C12b); argument forms (int lists/arrays, tuples, float32) vary along histories.",
-   note='''Trusted: Lean kernel + Mathlib, axioms propext/Classical.choice/Quot.sound, the compiled model driver executing the validator, the Python harness (float->Fraction, seed forcing by patching numpy.random.randint in the harness process, generators). ''' + "QSP/Properties/C12b.lean proves that the product-rule functional tabulated by the model (jacSpec) is the true partial derivative (HasDerivAt) of Im<0|U(a)|0> with respect to each reduced phase at every a in [-1,1], with the factor 2 at the doubled centre derived, and that the returned lists are the complete cosine/Chebyshev expansions of the value and of each derivative (jacSpec_spec, imCheb_spec_T). PARTIAL: jacSpec evaluates that functional at 70-bit rational enclosure centres (no quantitative bound proved between centre and exact pairs); that the code's 3x3 recurrences + FFT compute the same numbers is carried by the comparison (agreement 2e-15), not by a theorem.",
+   note='''Trusted: Lean kernel + Mathlib, axioms propext/Classical.choice/Quot.sound, the compiled model driver executing the validator, the Python harness (float->Fraction, seed forcing by patching numpy.random.randint in the harness process, generators). ''' + "QSP/Properties/C12b.lean proves that the product-rule functional tabulated by the model (jacSpec) is the true partial derivative (HasDerivAt) of Im<0|U(a)|0> with respect to each reduced phase at every a in [-1,1], with the factor 2 at the doubled centre derived. QSP/Properties/C12c.lean closes the two gaps that were left: (i) coefficient-wise - hasDerivAt_chebCoefs: each Chebyshev coefficient of Im<0|U|0> (defined by a finite DFT mean, unique by chebCoefs_unique) is differentiable in each reduced phase and its derivative is the corresponding coefficient of the derivative function; (ii) quantitative - jacSpec_value_err / jacSpec_col_deriv: every entry the model computes from its enclosure centres is within jacErr (an executable rational bound, about 1e-14 at 50 bits, 1e-20 at 70 bits) of the true coefficient / true partial derivative, and the comparison tolerance includes that radius. What remains carried by the comparison, not by a theorem: that the code's 3x3 rotation recurrences + FFT compute the same numbers (agreement 2e-15 on every k = 1..60).",
    technique="Lean 4 proof (layout invariant, parity) + differential correspondence (layout exact, response, Jacobian)",
    design="7/C12")
 CHECKS["C13"] = dict(
